@@ -382,7 +382,10 @@ DIFF_SOURCES = [
     ("''", [""]),
     ("<<3, 1, 2>>", [""]),
     ("range(7)", [""]),
-    ("<<<3 => 'c', 1 => 'a', 2 => 'a'>>>", ["keys ", "entries "]),
+    ("<<<3 => 'c', 1 => 'a', 2 => 'a'>>>", ["keys ", "entries ",
+                                             "values "]),
+    # values that descend while the keys ascend
+    ("<<<1 => 'c', 2 => 'b', 3 => 'a', 4 => 'b'>>>", ["values ", "entries "]),
     ("<*a = 1, _hidden = 2, c = 3*>", ["keys ", "values ", "entries "]),
     ("<*a = 1, _proto_ = <*z = 9*>, b = [2]*>", ["keys ", "entries "]),
     ("<**>", ["keys "]),
@@ -432,10 +435,10 @@ def comp_loop_pairs():
             f"do def r = {ini}; for x in range(3) do def q = {ini}; "
             f"for y in range(x) do append(q, y); end; append(r, q); end; "
             f"r end]")
-    # two sources with a selector each (maps whose values ascend with their
-    # keys, so that key order and value order coincide)
-    m1 = "<<<1 => 10, 2 => 20>>>"
-    m2 = "<<<'a' => 'x', 'b' => 'y'>>>"
+    # two sources with a selector each (maps whose values descend while
+    # their keys ascend: the values come in key order in both forms)
+    m1 = "<<<1 => 20, 2 => 10>>>"
+    m2 = "<<<'a' => 'y', 'b' => 'x'>>>"
     for sel1 in ("keys ", "values ", "entries "):
         for sel2 in ("keys ", "values ", "entries "):
             for (o, c, ini, add) in (("[", "]", "[]", "append(r, [a, b])"),
@@ -449,7 +452,8 @@ def comp_loop_pairs():
                 yield "parallel-selectors", (
                     f"def m = {m1}; def n = {m2}; "
                     f"[{o}[a, b] for a in {sel1}m also for b in {sel2}n{c}, "
-                    f"do def r = {ini}; def bs = [b for b in {sel2}n]; "
+                    f"do def r = {ini}; def bs = []; "
+                    f"for b in {sel2}n do append(bs, b); end; "
                     f"def i = 0; for a in {sel1}m do append(r, [a, bs[i]]); "
                     f"i += 1; end; r end]")
     # effects and failures: the filter guards the value expression exactly as
@@ -537,6 +541,46 @@ def diff_ok(src):
         got
 
 
+# sources iterated WITHOUT a selector: (source, kind, what the comprehension
+# is known to yield instead of what the loop visits)
+DEFAULT_SOURCES = [
+    ("<<<3 => 'c', 1 => 'a', 2 => 'a'>>>", "map", "entries "),
+    ("<<<'k' => 2>>>", "map", "entries "),
+    ("<<<>>>", "map", "entries "),
+    ("<*a = 1, c = 3*>", "object", "keys "),
+    ("<*a = 1, _proto_ = <*z = 9*>, b = [2]*>", "object", "keys "),
+    ("<**>", "object", "keys "),
+]
+
+
+def default_selector_triples():
+    """programs that return [comprehension over s, the same explicit loop,
+    the comprehension with the selector it is known to use instead]"""
+    for src, kind, named in DEFAULT_SOURCES:
+        for cond in DIFF_CONDS:
+            cif = " if " + cond if cond else ""
+            lif = "if " + cond + " then " if cond else ""
+            for f in ("x", "[x]"):
+                for (o, c, ini) in (("[", "]", "[]"), ("<< ", " >>", "<<>>")):
+                    yield kind, named.strip(), (
+                        f"def s = {src}; [{o}{f} for x in s{cif}{c}, "
+                        f"do def r = {ini}; for x in s do "
+                        f"{lif}append(r, {f}); end; r end, "
+                        f"{o}{f} for x in {named}s{cif}{c}]")
+
+
+def default_selector_verdict(src):
+    """None (comprehension == loop), or what the comprehension yields"""
+    got, _ = H.run_impl_value(src)
+    if not (got[0] == "value" and isinstance(got[1], list)
+            and len(got[1]) == 3):
+        return "no-value", got
+    a, b, c = got[1]
+    if core.strict_eq(a, b):
+        return None, got
+    return ("named" if core.strict_eq(a, c) else "other"), got
+
+
 def explore_comp_diff(chunk):
     """a comprehension yields the same elements as the equivalent explicit
     loop (implementation against implementation): objects with underscore
@@ -554,11 +598,29 @@ def explore_comp_diff(chunk):
             agg.violation({"part": "comp-vs-loop", "kind": what},
                           {"src": src, "diff": True},
                           "[v, v]", list(got), size=len(src))
+    for kind, named, src in default_selector_triples():
+        verdict, got = default_selector_verdict(src)
+        agg.count("steps")
+        agg.cls(("comp-default", kind, verdict))
+        if verdict is not None:
+            agg.violation(
+                {"part": "comp-vs-loop", "kind": "default-selector",
+                 "source": kind,
+                 "comprehension-yields": named if verdict == "named"
+                 else verdict},
+                {"src": src, "diff3": True},
+                "[v, v, _]: the comprehension yields what the loop visits",
+                list(got), size=len(src))
     agg.count("cases")
     return agg
 
 
 def replay(case, verbose=False):
+    if case.get("diff3"):
+        verdict, got = default_selector_verdict(case["src"])
+        if verbose:
+            print(case["src"], "->", got)
+        return verdict is not None
     if case.get("diff"):
         ok, got = diff_ok(case["src"])
         if verbose:
